@@ -21,10 +21,8 @@ Everything is driven by the ``random.Random`` given by the caller; no global sta
 """
 import ast
 import copy
-import io
 import random
 import re
-import tokenize
 from typing import Callable, Iterator, List, Optional, Sequence, Tuple
 
 MAX_TEXT = 50_000  # never produce texts beyond this size
